@@ -126,7 +126,7 @@ def explore_entry(args):
 class MirRun(object):
     """one scratch copy + dump + replay binary"""
 
-    def __init__(self, tag, harness_files, need_replay=True, release=False):
+    def __init__(self, tag, harness_files, need_replay=True, release=False, dump=True):
         self.tag = tag
         self.harness_files = dict(harness_files)
         with open(os.path.join(common.HARNESS_DIR, "prelude.rs")) as fh:
@@ -138,15 +138,19 @@ class MirRun(object):
         self.timings = {}
         t0 = time.time()
         with concurrent.futures.ThreadPoolExecutor(3) as ex:
-            fd = ex.submit(mirdump.dump, self.scratch, self.dump_path)
+            fd = ex.submit(mirdump.dump, self.scratch, self.dump_path) if dump else None
             fr = ex.submit(replay.build, self.scratch, False) if need_replay else None
             frr = ex.submit(replay.build, self.scratch, True) if (need_replay and release) else None
-            self.timings["dump_s"], self.dump_log = fd.result()
+            if fd is not None:
+                self.timings["dump_s"], self.dump_log = fd.result()
             if fr is not None:
                 self.replay_bin, self.timings["replay_build_s"] = fr.result()
             if frr is not None:
                 self.replay_bin_rel, self.timings["replay_build_release_s"] = frr.result()
         self.timings["prepare_s"] = time.time() - t0
+        if not dump:
+            self.entries = []
+            return
         with open(self.dump_path) as fh:
             d = json.load(fh)
         declared = set()
